@@ -9,7 +9,7 @@
 set -u
 cd "$(dirname "$0")/.."
 N=${1:-2000}
-BIN=sim/target/release/simrun
+BIN=${DET_BIN:-sim/target/release/simrun}   # DET_BIN=sim/target-ap/release/simrun: the atomic-granular build
 ./check --setup >/dev/null 2>&1 || { echo "build failed"; exit 2; }
 W=$(mktemp -d /tmp/verif-det.XXXXXX)
 trap 'rm -rf "$W"' EXIT
